@@ -310,6 +310,12 @@ func init() {
 			return &SeqPlan{Specs: []*SeqSpec{
 				{Name: "replies-ownership", Cfg: cfg, Alphabet: c02Alphabet(q), Depth: d, Drain: true, MaxStates: 400000},
 				{Name: "replies-queue", Cfg: cfg, Alphabet: c04Alphabet(q), Depth: d, Drain: true, MaxStates: 400000},
+				// a millisecond-unit wait of more than 3 s is handed from the millisecond wheel to the second wheel
+				{Name: "replies-millisecond-waits", Cfg: cfg, Depth: d, Drain: true, MaxStates: 400000, Alphabet: []SeqOp{
+					op(0, L(0, 1, 1, 0, 4, 0, 0)), op(0, L(0, 1, 1, 0, 30, 0, 0)),
+					op(1, withTF(L(0, 1, 2, 3500, 4, 0, 0), fMilli)), op(1, withTF(L(0, 1, 3, 5999, 4, 0, 0), fMilli)), op(1, withTF(L(0, 1, 4, 900, 4, 0, 0), fMilli)),
+					op(0, U(0, 1, 1)), op(0, hapi.Cmd{Type: 2, Key: 1, Id: 2, Flag: 0x02}), op(0, hapi.Cmd{Type: 2, Key: 1, Id: 3, Flag: 0x02}),
+					tick(200 * ms), tick(1 * sec), tick(3 * sec)}},
 			}, Oracles: []SeqOracle{SeqOracleC03}}
 		},
 		rule:        "schedule DFS (<=2/3 deviations) of 2-3 client threads racing the timeout/expiry sweepers, plus BFS over operation histories each extended by a drain; per connection the multiset of (RequestId, result) is checked: exactly one terminal reply per request, at most one EXPRIED per grant and only for requests that set the hold's terms, no foreign RequestId; non-trivial = at least two client threads answered",
